@@ -114,7 +114,8 @@ struct FileInfo {
             inode == rhs.inode &&
             size == rhs.size &&
             modTime == rhs.modTime &&
-            checksum == rhs.checksum);
+            checksum == rhs.checksum &&
+            isMissing() == rhs.isMissing());
   }
 
   bool operator!=(const FileInfo& rhs) const {
